@@ -19,7 +19,7 @@ EXPLANATION = (
     "C05.O6 each mode function publishes its documented literal to /robot/mode before its loop.  C05.O3 the component list is the "
     "creations of the type-hint loop in loop order; C05.O7 on a concrete two-level robot hierarchy (typing.get_type_hints modelled "
     "base-class-first as documented) the components are created in declaration order, base classes first.  A second period of every "
-    "mode function is analysed on the robot the first one left behind."
+    "mode function is analysed on the robot the first one left behind.  C05.O8 the NotifierDelay that paces the loops re-arms each alarm at the previous alarm plus one period on its first waits (premise of one iteration per control_loop_wait_time; the inductive version is C16.O2)."
 )
 RULE = "one case = one path of a mode function (list lengths x driver-station answers x exits x configuration); compared token by token with the specification skeleton"
 EXHAUSTIVE = True
@@ -148,6 +148,12 @@ def check(ctx):
     if not bad:
         ctx.ok("C05.O3", f"component list == creations in type-hint order on {nchk} start-up paths")
     hierarchy_order(ctx, info2)
+    # ---- O8 premise of "exactly one iteration per control_loop_wait_time": the delay object keeps its time grid
+    from . import C16 as _c16
+
+    ctx.rule("C05.O8", "the NotifierDelay that paces every mode loop re-arms each alarm at the previous alarm plus one period (no drift)")
+    okg, why = _c16.grid_of_first_waits(ctx)
+    ctx.require(okg, "C05.O8", "NotifierDelay: alarm k+1 == alarm k + period on the first waits of one object", f"the delay that paces the mode loops drifts: {why} - iterations are no longer one per control_loop_wait_time of FPGA time", site=("robotpy_ext/misc/precise_delay.py", 0, "NotifierDelay.wait"), key="C05.O8|grid")
     ctx.floor("start-up paths checked for component order", nchk, 100)
     ctx.sample({"function": res[0][0], "tokens": [rr.short(t) for t in res[-1][3].tokens if rr.key(t)][:30]})
 
